@@ -27,7 +27,7 @@ EXPLANATION = ('IDX unit inference over pitches_to_chord_symbol and its helper; 
 TRUSTED = ['major-scale oracle', 'constant folding', 're._parser']
 NOT_DECIDED = ['the round trip over all 24 576 (pitch-class set, bass) cases - that is enumeration by execution', 'assert statements are not analysed (open world)']
 ASSUMPTIONS = []
-FLOORS = {'IDX': 4, 'VOCAB': 5, 'SEVENTH': 2, 'TAB': 25, 'ESC': 4, 'KEYERR': 4, 'SHAPE': 3}
+FLOORS = {'IDX': 4, 'VOCAB': 8, 'SEVENTH': 2, 'TAB': 25, 'ESC': 4, 'KEYERR': 4, 'SHAPE': 3}
 
 MAJOR = {1: 0, 2: 2, 3: 4, 4: 5, 5: 7, 6: 9, 7: 11}
 
@@ -49,9 +49,37 @@ def run(ctx):
   T['_DEGREE_MODIFICATIONS'] = mods
   units(ctx, mi)
   vocab(ctx, mi, T)
+  reader_guards(ctx, mi)
   tables(ctx, mi, T)
   escapes(ctx, mi, T)
   shape(ctx, mi)
+
+
+def reader_guards(ctx, mi):
+  """The namer writes (add..N) exactly for degrees absent from the chosen kind and (noN) exactly for degrees present in it;
+  the parser must therefore reject an addition only when that very degree number is already present, a subtraction only
+  when it is absent, and never reject an alteration.  Any wider rejection makes the parser refuse names the namer produces."""
+  want = {'_add_scale_degree': ('In', 'a degree already present'), '_subtract_scale_degree': ('NotIn', 'a degree that is absent'), '_alter_scale_degree': (None, 'nothing')}
+  for name, (op, what) in sorted(want.items()):
+    fi = mi.functions.get(name)
+    ctx.require(fi is not None, 'chord_symbols_lib.%s not found' % name)
+    ps = fi.params()
+    raises = [s_ for s_ in U.walk_stmts(fi.node) if isinstance(s_, ast.Raise)]
+    if op is None:
+      ok = not raises
+      ctx.ob('VOCAB/reader-guard', fi, raises[0] if raises else fi.node, ok, '%s rejects nothing' % name if ok else '%s now rejects some modifications the namer writes' % name,
+             construct='%s rejects %s' % (name, what))
+      continue
+    ok = len(raises) == 1
+    g = None
+    if ok:
+      g = U.parent(fi.node, raises[0])
+      t = g.test if isinstance(g, ast.If) and raises[0] in g.body else None
+      ok = isinstance(t, ast.Compare) and len(t.ops) == 1 and type(t.ops[0]).__name__ == op and norm_text(t.left) == ps[1] and norm_text(t.comparators[0]) == ps[0] and \
+          U.parent(fi.node, g) is fi.node
+    ctx.ob('VOCAB/reader-guard', fi, g or fi.node, ok, '%s rejects exactly %s' % (name, what) if ok else
+           '%s does not reject exactly %s (%s): names written by pitches_to_chord_symbol can be refused by the parser' % (name, what, norm_text(g.test) if isinstance(g, ast.If) else 'no single guarded raise'),
+           construct='%s rejects %s' % (name, what))
 
 
 # ------------------------------------------------------------------ IDX(a)
@@ -403,6 +431,7 @@ def shape(ctx, mi):
 
 
 MUTANTS = [
+    Mutant('seed C15_e: adding a compound degree is refused when its simple degree is present', F, "  if degree in degrees:\n    raise ChordSymbolError('Scale degree already in chord: %d' % degree)", "  if degree in degrees or (degree - 1) % 7 + 1 in degrees:\n    raise ChordSymbolError('Scale degree already in chord: %d' % degree)", rule='VOCAB/reader-guard'),
     Mutant('scale degrees indexed with the absolute bass', F, '  bass_degrees = _SCALE_DEGREES[(bass - best_root) % 12]', '  bass_degrees = _SCALE_DEGREES[bass]', rule='IDX/scale-degrees'),
     Mutant('scale degrees indexed with the root', F, '  bass_degrees = _SCALE_DEGREES[(bass - best_root) % 12]', '  bass_degrees = _SCALE_DEGREES[best_root]', rule='IDX/scale-degrees'),
     Mutant('root spelled from a relative pitch', F, "  root_str = _pitch_class_to_string(*_transpose_pitch_class('C', 0, best_root))", "  root_str = _pitch_class_to_string(*_transpose_pitch_class('C', 0, (best_root - bass) % 12))", rule='IDX/spelling'),
